@@ -20,8 +20,21 @@ def _alarm(signum, frame):
     raise CaseTimeout()
 
 
+INIT_ERROR = None
+
+
 def init_worker(hooks=False):
-    """Called once per worker process."""
+    """Called once per worker process.  Never raises (a raising pool initializer
+    makes multiprocessing respawn workers forever); a failure is kept in
+    INIT_ERROR and reported by the first task."""
+    global INIT_ERROR
+    try:
+        _init_worker(hooks)
+    except BaseException as e:  # noqa
+        INIT_ERROR = 'worker initialisation failed: %r' % (e,)
+
+
+def _init_worker(hooks):
     sys.dont_write_bytecode = True
     if REPO not in sys.path:
         sys.path.insert(0, REPO)
